@@ -290,6 +290,26 @@ fn check_extra_in(local: &[u8], central: &[u8], variant: u8, large: bool, st: &m
         return;
     }
     if !accepted {
+        // refused: a caller that ignores the error, writes the content and finishes (the call list does exactly that) must
+        // not end up with an archive that carries the refused bytes after all
+        if must_reject && res.last().map_or(false, |r| r.is_ok()) {
+            if let Ok(p) = zipparse::parse(&bytes, &Opts::lenient()) {
+                if let Some(e) = p.entries.iter().find(|e| e.name == b"x") {
+                    let holds = |hay: &[u8], needle: &[u8]| !needle.is_empty() && hay.windows(needle.len()).any(|w| w == needle);
+                    let bad_part: &[u8] = if vl == Verdict::Reject { &want_local } else { &want_central };
+                    if holds(&e.extra, bad_part) || holds(&e.l_extra, bad_part) {
+                        st.class("REFUSED-EXTRA-STORED");
+                        st.viol(
+                            format!("extra/refused-data-stored/{vname}"),
+                            format!("{what} ({vname}, large {large}): the extra data was refused with an error, the caller carried on and finish() succeeded: the archive's entry carries the refused bytes (local {}, central {})", show_x(&e.l_extra), show_x(&e.extra)),
+                            case(),
+                            order,
+                        );
+                        return;
+                    }
+                }
+            }
+        }
         st.class("rejected");
         return;
     }
